@@ -1094,6 +1094,18 @@ ENV_BINDS = [
     {"scheme": "http", "server": "example.org", "script": "/caf\u00e9/\u65e5\u672c", "sub": "", "via": "bind"},
     {"scheme": "https", "server": "example.org:444", "script": "/my app/", "sub": "www", "via": "bind"},
 ]
+# script roots that themselves contain a valid percent escape: only the percent-encoded spelling denotes them
+PCT_BINDS = [
+    {"scheme": "http", "server": "example.org", "script": "/a%20b", "sub": "", "via": "environ"},
+    {"scheme": "https", "server": "example.org:8443", "script": "/x%2Fy", "sub": "", "via": "bind"},
+    {"scheme": "http", "server": "example.org", "script": "/%41pp/", "sub": "www", "via": "environ_sn"},
+]
+
+
+def root_key_suffix(cfg):
+    """Key suffix for violations of the script-root clause on a root that contains a valid percent escape."""
+    import re
+    return ":root-pct-escape" if re.search("%[0-9A-Fa-f]{2}", cfg["bind"]["script"]) else ""
 
 
 # ---------------------------------------------------------------------------- C12: defaults families (argument subsets)
